@@ -362,6 +362,8 @@ func (rt *runtime) claimTokens(kid string) []Tok {
 		{"[x,y]", []any{"x", "y"}}, {"'x'", "x"}, {"'aud-three'", "aud-three"}, {"[aud-two]", []any{"aud-two"}}, {"[]", []any{}},
 		// the string form is a space separated list: other white space does not separate values
 		{"'x<TAB>aud-one'", "x\taud-one"},
+		// long lists (a token for many services)
+		{"[18 foreign]", manyAudiences(18, "")}, {"[17 foreign,aud-one]", manyAudiences(17, "aud-one")},
 	}
 
 	type sc struct {
@@ -403,6 +405,20 @@ func (rt *runtime) claimTokens(kid string) []Tok {
 				})
 			}
 		}
+	}
+
+	return out
+}
+
+func manyAudiences(n int, last string) []any {
+	var out []any
+
+	for i := 0; i < n; i++ {
+		out = append(out, fmt.Sprintf("service-%02d", i))
+	}
+
+	if last != "" {
+		out = append(out, last)
 	}
 
 	return out
